@@ -89,7 +89,7 @@ own timeout expires. -/
 theorem C11_counterexample (cap : Nat) (hcap : 1 ≤ cap) :
     ∃ s, run .asFound cap d14Schedule = some s ∧
       s.failQ = some ⟨2, [0]⟩ ∧ s.sendQ = [] ∧ s.calls = [] ∧ s.isClosed = true ∧
-      s.conns = [⟨false, true, true, .done, .exited⟩, ⟨true, false, false, .reading, .exited⟩] ∧
+      s.conns = [⟨false, false, true, true, .done, .exited⟩, ⟨true, false, false, false, .reading, .exited⟩] ∧
       s.attempts = [(⟨1, []⟩, 0), (⟨2, [0]⟩, 0)] ∧ s.arrived = [(1, 0)] ∧
       ¬ NoFalseClose s ∧ ¬ NoDeadWrite s ∧ ¬ Served s := by
   have h0 : (0 : Nat) < cap := hcap
@@ -102,6 +102,20 @@ theorem C11_counterexample (cap : Nat) (hcap : 1 ≤ cap) :
     exact h ⟨2, [0]⟩ 0 (by simp) (by simp)
   · intro h
     exact (h 1 _ rfl rfl rfl).2.1 rfl
+
+/-- The same schedule with an ABORTIVE close by the server (RST: restart, kill, close with unread
+input; the receiver's `Read` fails with a `*net.OpError` and takes the first error branch of `recv`)
+instead of the orderly one: the run and its end are the same. -/
+theorem C11_counterexample_reset :
+    ∃ s, run .asFound 100 (d14Schedule.map (fun a => match a with
+        | .pClose k => Action.pReset k
+        | .rEof k => Action.rErr k
+        | a => a)) = some s ∧
+      s.failQ = some ⟨2, [0]⟩ ∧ s.isClosed = true ∧ tauSucc .asFound 100 s = [] ∧
+      s.conns[1]? = some ⟨true, false, false, false, .reading, .exited⟩ := by
+  refine ⟨_, by simp [run, runFrom, d14Schedule, step, init, findCall, setCall, dropCall, setConn,
+    closeConn, knownList, knownAt, afterDequeue]; rfl, rfl, rfl, ?_, rfl⟩
+  decide
 
 /-- hence the code as found does not have the property -/
 theorem C11_counterexample_not_full : ¬ C11_full .asFound := by
@@ -119,7 +133,7 @@ theorem C11_counterexample_parked :
 
 /-- Second way into the same defect, without any dequeue by an old sender: the late `close` of an
 old RECEIVER. The client's own sender closes connection 0 on idle timeout; its receiver's `Read`
-fails and it is about to run `close(conn 0)`; call 2 dials connection 1; now the old receiver's
+fails (`*net.OpError`, "use of closed network connection") and it is about to run `close(conn 0)`; call 2 dials connection 1; now the old receiver's
 `close` sets the shared flag. Request 2 is still written to connection 1 and arrives, but at its
 next tick the sender of the healthy connection 1 exits, and call 3 dials a third connection while
 connection 1 was never lost (its receiver keeps reading it). -/
@@ -127,7 +141,7 @@ def lateReceiverSchedule : List Action :=
   [.callBegin 1, .callReconnect 1, .markReconnected 1, .callEnq 1, .callRet 1,
    .mark .top 0, .sTopGo 0, .sNoFail 0, .mark .inner 0, .sTakeQ 0, .mark .got 0, .sWriteOk 0,
    .mark .top 0, .sTopGo 0, .sNoFail 0, .mark .inner 0,
-   .sTickIdle 0, .sIdleClose 0, .rEof 0, .mark .closing 0,
+   .sTickIdle 0, .sIdleClose 0, .rErr 0, .mark .closing 0,
    .callBegin 2, .callReconnect 2, .markReconnected 2, .callEnq 2, .callRet 2,
    .rClose 0,
    .mark .top 1, .sTopGo 1, .sNoFail 1, .mark .inner 1, .sTakeQ 1, .mark .got 1, .sWriteOk 1,
@@ -137,7 +151,7 @@ def lateReceiverSchedule : List Action :=
 theorem C11_counterexample_late_receiver :
     ∃ s, run .asFound 100 lateReceiverSchedule = some s ∧
       s.conns.length = 3 ∧ s.arrived = [(1, 0), (2, 1)] ∧ NoDeadWrite s ∧
-      s.conns[1]? = some ⟨true, false, false, .reading, .exited⟩ := by
+      s.conns[1]? = some ⟨true, false, false, false, .reading, .exited⟩ := by
   refine ⟨_, by simp [run, runFrom, lateReceiverSchedule, step, init, findCall, setCall, dropCall,
     setConn, closeConn, knownList, knownAt, afterDequeue]; rfl, rfl, rfl, ?_, rfl⟩
   intro m k h
@@ -272,6 +286,43 @@ theorem C11_sender_progress (v : Variant) (cap : Nat) (acts : List Action) (s : 
     (hk : c.known = false) (ha : c.alive = true) :
     c.spc ≠ .exited ∧ ∃ a ∈ senderActions k, (step v cap s a).isSome = true :=
   sender_progress (inv_run hg hrun) hc hcur hk ha
+
+/-- The loss of a connection is always noticed, whatever its kind: once the server has left
+connection `k` — orderly (`pClose`, the `Read` returns `io.EOF`) or abortively (`pReset`, the `Read`
+returns a `*net.OpError`) — or the client has closed the socket itself, the receiver of `k` has an
+enabled statement until it is done (every schedule, both variants); and (repaired: every schedule;
+as found: the timely ones) a receiver that is done has run `close(conn_k)`: both error branches of
+`recv` end in `close`. (That the scheduler runs the receiver is assumed.) -/
+theorem C11_loss_noticed (v : Variant) (cap : Nat) (acts : List Action) (s : State)
+    (hrun : run v cap acts = some s) (k : Nat) (c : Conn) (hc : s.conns[k]? = some c)
+    (hl : c.alive = false ∨ c.known = true) :
+    (c.rpc ≠ .done → ∃ a ∈ receiverActions k, (step v cap s a).isSome = true) ∧
+    ((v = .repaired ∨ Timely v cap acts) → c.rpc = .done → c.known = true) :=
+  ⟨fun hd => receiver_progress hc hl hd,
+   fun hg hd => (inv_run hg hrun).doneKnown k c hc (Or.inr (Or.inr (Or.inl hd)))⟩
+
+/-- non-vacuity of `C11_loss_noticed`: after an abortive close the receiver's enabled statement is
+the `*net.OpError` branch, after an orderly one the `io.EOF` branch -/
+example : ∃ s c, run .repaired 100 [.callBegin 1, .callReconnect 1, .pReset 0] = some s ∧
+    s.conns[0]? = some c ∧ c.alive = false ∧ c.rpc ≠ .done ∧
+    (step .repaired 100 s (.rErr 0)).isSome = true ∧ (step .repaired 100 s (.rEof 0)).isSome = false := by
+  refine ⟨_, _, by simp [run, runFrom, step, init, findCall, setCall, setConn, knownList]; rfl, rfl, rfl,
+    by decide, by decide, by decide⟩
+
+/-- the repaired code across an abortive close: the receiver takes the `*net.OpError` branch, runs
+`close`, the old sender ends on `connDone`; the call issued afterwards dials connection 1 and its
+request arrives there -/
+example : ∃ s, run .repaired 100
+    [.callBegin 1, .callReconnect 1, .markReconnected 1, .callEnq 1, .callRet 1,
+     .mark .top 0, .sTopGo 0, .sNoFail 0, .mark .inner 0, .sTakeQ 0, .sCheckOk 0, .mark .got 0,
+     .sWriteOk 0, .mark .top 0, .sTopGo 0, .sNoFail 0, .mark .inner 0,
+     .pReset 0, .rErr 0, .mark .closing 0, .rClose 0, .rSignal 0, .sInnerDone 0,
+     .callBegin 2, .callReconnect 2, .markReconnected 2, .callEnq 2, .callRet 2,
+     .mark .top 1, .sTopGo 1, .sNoFail 1, .mark .inner 1, .sTakeQ 1, .sCheckOk 1, .mark .got 1,
+     .sWriteOk 1] = some s ∧
+    s.isClosed = false ∧ s.arrived = [(1, 0), (2, 1)] ∧ s.attempts = [(⟨1, []⟩, 0), (⟨2, [0]⟩, 1)] := by
+  refine ⟨_, by simp [run, runFrom, step, init, findCall, setCall, dropCall, setConn, closeConn,
+    knownList, knownAt, afterDequeue, isCur]; rfl, rfl, rfl, rfl⟩
 
 /-- non-vacuity of the hypotheses of `C11_sender_progress` -/
 example : ∃ s c, run .repaired 100 [.callBegin 1, .callReconnect 1] = some s ∧
